@@ -26,6 +26,7 @@ BUILDS = {
     'asan-ndebug': ['-O1', '-fno-omit-frame-pointer', '-fsanitize=address,undefined', '-fno-sanitize-recover=all', '-D_GLIBCXX_ASSERTIONS', '-DNDEBUG'],
     'opt': ['-O2', '-DNDEBUG'],
     'dbg': ['-O1', '-D_GLIBCXX_ASSERTIONS'],
+    'exact': ['-O2', '-D_GLIBCXX_ASSERTIONS'],   # exact-rational monitor: __int128 arithmetic, no sanitizer (UBSan would report nothing the overflow checks do not)
     'tsan': ['-O1', '-g', '-fsanitize=thread', '-pthread'],
     'jet': ['-O1', '-fno-omit-frame-pointer', '-fsanitize=address,undefined', '-fno-sanitize-recover=all', '-D_GLIBCXX_ASSERTIONS', '-I' + ROOT + '/stubs'],
 }
